@@ -1834,6 +1834,10 @@ func TestC10(t *testing.T) {
 			rounds, _ := strconv.Atoi(f[1])
 			k, _ := strconv.Atoi(f[2])
 			fmt.Fprintln(w, peerTableRace(rounds, k))
+		case len(f) >= 3 && f[0] == "streams":
+			fmt.Fprintln(w, streams(f[1], f[2:]))
+		case len(f) >= 2 && f[0] == "hk":
+			fmt.Fprintln(w, housekeeping(f[1:]))
 		case len(f) >= 2 && f[0] == "table":
 			fmt.Fprintln(w, peerTable(f[1:]))
 		case len(f) == 3 && f[0] == "discover" && f[2] == "failsend":
